@@ -538,4 +538,45 @@ class C15h(Obligation):
         ctx.check(len(stack) == depth, 'the guard stack is restored')
 
 
-OBLIGATIONS = [C15a, C15a2, C15a3, C15b, C15c, C15d, C15e, C15f, C15g, C15h]
+import ast as _ast  # noqa: E402
+import inspect as _inspect  # noqa: E402
+import linecache as _linecache  # noqa: E402
+
+import jedi.api as _japi  # noqa: E402
+
+
+def _import_time_statement():
+    """the module-level statement of jedi/api/__init__.py that adjusts the interpreter recursion limit, wrapped into a
+    function of `sys` so that it can be executed symbolically (source taken from /repo at run time)"""
+    src = _inspect.getsource(_japi)
+    found = [st for st in _ast.parse(src).body
+             if isinstance(st, _ast.Expr) and 'setrecursionlimit' in _ast.unparse(st)]
+    assert len(found) == 1, 'expected exactly one import-time setrecursionlimit statement'
+    text = 'def import_time_statement(sys):\n    ' + _ast.unparse(found[0]) + '\n'
+    filename = '<jedi.api import-time statement>'
+    _linecache.cache[filename] = (len(text), None, text.splitlines(True), filename)
+    ns = {}
+    exec(compile(text, filename, 'exec'), ns)
+    return ns['import_time_statement'], _ast.unparse(found[0])
+
+
+class C15i(Obligation):
+    id = 'C15.i'
+    title = 'importing jedi leaves the interpreter with a recursion limit of at least 3000, whatever the limit was before'
+    pattern = 'P3 (the real import-time statement executed with sys replaced by a stub; the previous limit is an unbounded symbolic integer)'
+    interpret_modules = ('jedi', 'obligations')
+    assumptions = ('the limit in force before the import is an arbitrary integer >= 1; the statement is read from '
+                   'jedi/api/__init__.py at run time',)
+
+    def scenario(self, ctx, cfg):
+        fn, text = _import_time_statement()
+        before = ctx.int('limit_before_import', 1)
+        now = [before]
+        fake = Obj(getrecursionlimit=lambda: now[0], setrecursionlimit=lambda n: now.__setitem__(0, n))
+        ctx.force(fn)
+        out = ctx.call(fn, fake)
+        ctx.check(out.exc is None, 'never raises')
+        ctx.check(now[0] >= 3000, 'deep but finite inference chains do not die of the default limit of 1000')
+
+
+OBLIGATIONS = [C15a, C15a2, C15a3, C15b, C15c, C15d, C15e, C15f, C15g, C15h, C15i]
